@@ -693,13 +693,13 @@ def _select(prop_id, cases, tier, seed):
             k = (c["model"], c["prop"], c["K"])
             (pick if k not in seen else rest).append(c)
             seen.add(k)
-        smc = (pick + rest)[:44] if len(pick) < 44 else pick[:44]
+        smc = (pick + rest)[:32]
         seen, pick, rest = set(), [], []
         for c in chg:
             k = (c["model"], c["prop"] != "none", c["model2"] != c["model"])
             (pick if k not in seen else rest).append(c)
             seen.add(k)
-        chg = (pick + rest)[:20]
+        chg = (pick + rest)[:12]
     else:
         chg = chg[:400]
     for n, c in enumerate(smc):
